@@ -448,6 +448,9 @@ class XGen:
                 kids = [X("w:numFmt", {"w:val": f})] if f is not None else []
                 if pstyle and i == 0:
                     kids.append(X("w:pStyle", {"w:val": pstyle}))
+                if r.random() < 0.5:
+                    # where the counting starts is not part of what kind of list it is
+                    kids.insert(0, X("w:start", {"w:val": r.choice(["0", "1", "3", "10", "x"])}))
                 out.append(X("w:lvl", {"w:ilvl": str(i)}, kids))
             return out
         absn = [X("w:abstractNum", {"w:abstractNumId": "0"}, lvls(["bullet", "bullet", "decimal", None, "bullet", "lowerLetter"])),
